@@ -255,6 +255,9 @@ func (d *cnDriver) genSpec() cnTxSpec {
 		sp.Amount = int64(d.rng.Intn(100_000))
 	}
 	sp.Fee = []int64{0, 0, 1, 5, 20}[d.rng.Intn(5)]
+	if sp.Kind == "transfer" && d.rng.Intn(8) == 0 && bal > sp.Fee {
+		sp.Amount = bal - sp.Fee // the account is drained to exactly zero (and refilled by others later on)
+	}
 	switch x := d.rng.Intn(100); {
 	case x < 6:
 		sp.Validity, sp.Nonce = "badnonce", nonce+uint64(1+d.rng.Intn(3))
@@ -273,6 +276,13 @@ func (d *cnDriver) genSpec() cnTxSpec {
 		sp.Validity = "malformed"
 	case x < 21:
 		sp.Fee = bal + 1 + int64(d.rng.Intn(5)) // fee not covered
+		sp.Validity = "lowfeebalance"
+	case x < 24 && d.net.cfg.MinTransact > 0 && bal > 0:
+		// the fee is covered, the minimum balance an account must keep to transact is not
+		sp.Fee = bal - int64(d.rng.Intn(int(d.net.cfg.MinTransact)))
+		if sp.Fee < 0 {
+			sp.Fee = 0
+		}
 		sp.Validity = "lowfeebalance"
 	}
 	return sp
@@ -836,6 +846,7 @@ func consRun(args []string) int {
 	maxPerEntity := fs.Int("maxperentity", 1, "scheduler MaxValidatorsPerEntity")
 	maxGroup := fs.Int("maxgroup", 2, "largest primary committee size requested by runtime registrations")
 	noRounds := fs.Bool("norounds", false, "do not submit executor commitments")
+	minTransact := fs.Int64("mintransact", 0, "staking MinTransactBalance")
 	vrfMode := fs.Bool("vrf", false, "VRF beacon backend: nodes submit VRF proofs, elections use them")
 	vrfThr := fs.Uint64("vrfthreshold", 2, "VRF backend: proofs needed for a high-quality alpha")
 	tied := fs.Bool("tiedstake", false, "all validator entities start with the same escrow (ties at the validator-count cut-off)")
@@ -863,7 +874,7 @@ func consRun(args []string) int {
 	}
 	defer w.Close()
 	cfg := cnCfg{Validators: *vals, Users: *users, EpochInterval: *interval, Seed: *seed, ChainID: fmt.Sprintf("verif-chain-%d", *seed),
-		MaxValidators: *maxVals, MaxPerEntity: *maxPerEntity, ExtraNodes: *extraNodes, TiedStake: *tied, VRF: *vrfMode, VRFThreshold: *vrfThr}
+		MaxValidators: *maxVals, MaxPerEntity: *maxPerEntity, ExtraNodes: *extraNodes, TiedStake: *tied, VRF: *vrfMode, VRFThreshold: *vrfThr, MinTransact: *minTransact}
 	net, err := newNet(cfg, *scratch)
 	if err != nil {
 		fmt.Fprintln(os.Stderr, "net:", err)
